@@ -40,6 +40,8 @@ var c14Pool = func() []system.IP {
 		)
 		switch bi {
 		case 0:
+			// same class and stability as "5", interface identifier more than 2^63 away
+			out = append(out, ip(fmt.Sprintf("fd00:1::%s/64", "8000:0:0:1"), nil), ip(fmt.Sprintf("fd00:1::%s/64", "ffff:ffff:ffff:fffe"), func(i *system.IP) { i.ValidForever = true }))
 			out = append(out, ip(fmt.Sprintf(b, "2"), func(i *system.IP) { i.Temporary = true }))
 			out = append(out, ip(fmt.Sprintf(b, "6"), func(i *system.IP) { i.StablePrivacy = true }))
 		case 1:
